@@ -1,4 +1,4 @@
-import Tea.Proofs.LifecycleRank
+import Tea.Proofs.LifecycleStartup
 /-
 C04 — Run always returns, with the right error, whatever is in flight at termination.
 
@@ -11,26 +11,35 @@ only for a quit, ErrInterrupted for an interrupt, wraps ErrProgramKilled for Kil
 context cancellation and recovered panics, and is the reader's error for an input
 failure; end of input (EOF) alone does not end the program."
 
-The theorems are about the Lifecycle LTS (Tea/Runtime/Lifecycle.lean): the event loop,
+The theorems are about the Lifecycle LTS (Tea/Runtime/Lifecycle.lean): Run's start-up
+(from the moment Run is entered: `init0 c`), the event loop,
 the command dispatcher, the handler goroutines, the read loop, the renderer's listen
 goroutine, Run's tail, every concurrent caller of shutdown (Kill(), panic handlers) and
 any number of goroutines blocked in Send or Wait. They hold for EVERY configuration
-`c : Config` and EVERY schedule (`Reachable c s` quantifies over all label sequences,
-external labels - user code returning or panicking, signals, input, API calls,
-Kill(), parent-context cancellation - included).
+`c : Config` and EVERY schedule (`Reachable c s` quantifies over all label sequences
+from `init0 c`, external labels - user code returning or panicking, failures of the
+start-up, signals, input, API calls, Kill(), parent-context cancellation - included; a
+Kill() or a cancellation may come at ANY point of the start-up, section 5).
 
 Vocabulary (defined in `Tea/Proofs/Lifecycle.lean`, restated below by `rfl` theorems):
 * `Terminating s`   the context is cancelled, or the loop has exited, or a shutdown caller
                     on another goroutine (Kill(), a panic handler) exists;
-* `NoCallback s`    no user code (filter/Update, View, the output writer) is in progress on
-                    a goroutine the shutdown waits for;
-* `progressLabel l` `l` is one of the internal steps that move the termination forward;
+                    or Run is past its loop / its start-up (start-up failure, start-up panic);
+* `NoCallback s`    no user code (filter/Update, View, the output writer; during the start-up:
+                    the writer of the mode sequences, Init, the first View) is in progress on
+                    a goroutine the shutdown waits for; `LoopQuiet s` is the same without the
+                    three clauses about Run's start-up;
+* `progressLabel l` `l` is one of the internal steps that move the termination forward - the
+                    internal steps of Run's start-up are among them -;
                     the hand-over of a message to a running loop and the returns of the API
                     callers (`sendAbort`, `waitReturn`) are NOT progress labels, so the
                     theorems say that Run's return needs the help of no other goroutine;
+* `startupReturn l` `l` is the return of user code Run calls while starting up (the writer of the
+                    mode sequences, Init, the first View); `scheduleLabel` = progress or that;
 * `rank s`          the amount of termination work left (a natural number).
 Only property theorems live here; helper lemmas are in `Tea/Proofs/Lifecycle.lean` (induction
-principle, invariants, stability) and `Tea/Proofs/LifecycleRank.lean` (rank, no deadlock).
+principle, invariants, stability), `Tea/Proofs/LifecycleRank.lean` (rank, no deadlock) and
+`Tea/Proofs/LifecycleStartup.lean` (strikes and failures during the start-up).
 -/
 namespace Tea.Props.C04
 open Tea.Runtime.Life
@@ -42,21 +51,63 @@ theorem progressLabel_def (l : Label) : progressLabel l =
     match l with
     | .elCtxExit | .elCmdAbort | .runTail | .shCancel _ | .shHandlers _ | .shReader _ | .shWaitRead _
     | .shWaitReadTimeout _ | .shRenderer _ | .shRestore _ | .runReturn | .dispExit | .sigExit | .sigAbort
-    | .resizeExit | .initAbort | .readerMsgAbort | .readerErrAbort | .readerCanceled => true
+    | .resizeExit | .initAbort | .readerMsgAbort | .readerErrAbort | .readerCanceled
+    | .suSigHandler | .suNewRenderer | .suStartRenderer | .suSpawnInit | .suOpenReader | .suSpawnHandlers => true
     | _ => false := by
   cases l <;> rfl
+
+/-- the returns of the user code of Run's start-up -/
+theorem startupReturn_def (l : Label) : startupReturn l =
+    match l with
+    | .startWriterReturns | .initReturns | .firstViewReturns => true
+    | _ => false := by
+  cases l <;> rfl
+
+/-- the alphabet of the schedules that bring Run to its return -/
+theorem scheduleLabel_def (l : Label) : scheduleLabel l = (progressLabel l || startupReturn l) := rfl
+
+/-- the progress steps after which Run is inside user code of its start-up -/
+theorem entersStartupCode_def (l : Label) : entersStartupCode l =
+    match l with
+    | .suNewRenderer | .suStartRenderer | .suSpawnInit => true
+    | _ => false := by
+  cases l <;> rfl
+
+/-- `NoCallback` without the clauses about Run's start-up; `NoCallback` is this and "Run is not
+inside the writer of the mode sequences, Init or the first View" -/
+theorem loopQuiet_def (s : St) :
+    LoopQuiet s = (s.el ≠ .callback ∧ s.el ≠ .view ∧ s.listen ≠ .flushing) := rfl
+
+theorem noCallback_def (s : St) : NoCallback s ↔ (LoopQuiet s ∧
+    ¬ (s.runPc = .starting .modeWrites ∨ s.runPc = .starting .initCall ∨ s.runPc = .starting .firstView)) :=
+  noCallback_iff s
 
 /-- every progress label is an internal step of the runtime: none is an action of the
 environment or of user code -/
 theorem progressLabel_isLifecycle (l : Label) (h : progressLabel l = true) : l.isLifecycle = true :=
   progress_isLifecycle l h
 
-/-- the rank: steps left for Run itself (leave the loop, the phases of shutdown, return), the
-phases left for every other shutdown caller, and one for the loop, the dispatcher, every
-handler goroutine and the read loop while they have not exited -/
+/-- the rank: steps left for Run itself (the stages of its start-up, leave the loop, the phases of
+shutdown, return), the phases left for every other shutdown caller, and one for the loop, the
+dispatcher, every handler goroutine and the read loop while they have not exited -/
 theorem rank_def (s : St) : rank s =
     runW s + killersW s.killers + elW s.el + (if s.dispAlive = true then 1 else 0) + sigW s.sig
       + hW s.resize + hW s.initG + readW s.reader := rfl
+
+/-- Run's share: four per remaining stage of the start-up (a stage spawns at most three goroutines)
+on top of the eight of the loop; the phases of its shutdown plus one in the tail -/
+theorem runW_def (s : St) : runW s =
+    match s.runPc with
+    | .starting p => stageW p
+    | .loop => 8
+    | .tail => phaseW s.runSh + 1
+    | .returned => 0 := rfl
+
+theorem stageW_def (p : StartPc) : stageW p =
+    match p with
+    | .sigHandler => 44 | .newRenderer => 40 | .modeWrites => 36 | .startRenderer => 32 | .initCall => 28
+    | .spawnInit => 24 | .firstView => 20 | .openReader => 16 | .spawnHandlers => 12 := by
+  cases p <;> rfl
 
 /-! ### 1. Run's return cannot be blocked -/
 
@@ -88,12 +139,24 @@ theorem C04_stuck_means_returned (c : Config) (s : St) (hr : Reachable c s) (ht 
   rw [hstuck l hp] at he
   cases he
 
+/-- the same when Run may be INSIDE the user code of its start-up (the writer of the mode sequences,
+Init, the first View): then that code's return is the enabled step -/
+theorem C04_no_deadlock_startup (c : Config) (s : St) (hr : Reachable c s) (ht : Terminating s)
+    (hn : s.runPc ≠ .returned) (hq : LoopQuiet s) :
+    ∃ l, scheduleLabel l = true ∧ (step s l).isSome = true :=
+  no_deadlock_schedule hr ht hn hq
+
 /-! ### 2. ... and it comes after a bounded number of steps -/
 
 /-- BOUNDED. Every progress step strictly decreases the rank. -/
 theorem C04_bounded (s s' : St) (l : Label) (hp : progressLabel l = true)
     (hs : step s l = some s') : rank s' < rank s :=
   rank_decreases hp hs
+
+/-- ... and so does every return of the user code of the start-up -/
+theorem C04_bounded_startup (s s' : St) (l : Label) (hp : scheduleLabel l = true)
+    (hs : step s l = some s') : rank s' < rank s :=
+  rank_decreases_schedule hp hs
 
 /-- no other step of anybody - user code returning or panicking, signals, input, ticks, API
 calls, parent cancellation, message hand-overs - increases the rank, except a new
@@ -117,23 +180,65 @@ theorem C04_terminating_stable (s s' : St) (ls : List Label) (h : runLabels s ls
     (ht : Terminating s) : Terminating s' :=
   terminating_runLabels ls h ht
 
-/-- progress steps start no user code: no callback in progress stays so -/
-theorem C04_progress_starts_no_callback (s s' : St) (l : Label) (hp : progressLabel l = true)
+/- FALSE in the extended model (three steps of Run's start-up END inside user code):
+
+    theorem C04_progress_starts_no_callback (s s' : St) (l : Label) (hp : progressLabel l = true)
+        (hs : step s l = some s') (hc : NoCallback s) : NoCallback s'
+
+  counterexample: `init0 c`, `suSigHandler`, then `l = suNewRenderer`: the state before is at stage
+  `newRenderer` (`NoCallback`), the state after at stage `modeWrites` (inside the user's writer). -/
+
+/-- progress steps start no user code - except the three steps of the start-up after which Run is,
+by construction, inside the writer of the mode sequences, Init, the first View -/
+theorem C04_progress_starts_no_callback_partial (s s' : St) (l : Label) (hp : progressLabel l = true)
+    (hne : entersStartupCode l = false)
     (hs : step s l = some s') (hc : NoCallback s) : NoCallback s' :=
-  noCallback_progress hp hs hc
+  noCallback_progress hp hne hs hc
+
+/-- ... no step of a schedule (progress steps, returns of the start-up's user code) starts user code on
+the loop or the listen goroutine; and once the start-up is over no progress step starts any -/
+theorem C04_schedule_starts_no_loop_callback (s s' : St) (l : Label) (hp : scheduleLabel l = true)
+    (hs : step s l = some s') (hq : LoopQuiet s) : LoopQuiet s' :=
+  loopQuiet_schedule hp hs hq
+
+theorem C04_progress_starts_no_callback_after_startup (s s' : St) (l : Label)
+    (hp : progressLabel l = true) (hs : step s l = some s') (hpast : ∀ p, s.runPc ≠ .starting p)
+    (hc : NoCallback s) : NoCallback s' ∧ ∀ p, s'.runPc ≠ .starting p :=
+  noCallback_progress_past hp hs hpast hc
+
+/- FALSE in the extended model (a Run that is starting up still has Init and the first View to call):
+
+    theorem C04_run_returns (c : Config) (s : St) (hr : Reachable c s) (ht : Terminating s)
+        (hc : NoCallback s) :
+        ∃ ls s', (∀ l ∈ ls, progressLabel l = true) ∧ ls.length ≤ rank s ∧ runLabels s ls = some s' ∧
+          s'.runPc = .returned
+
+  counterexample: `init0 c`, `killCall`: reachable, terminating, no callback in progress (stage
+  `sigHandler`); after `suSigHandler`, `suNewRenderer` Run is inside the user's writer, which only the
+  external `startWriterReturns` ends: no schedule of progress labels reaches Run's return. -/
 
 /-- RUN RETURNS. From every reachable state in which termination has begun and no user
-callback is in progress, there is a schedule of at most `rank s` steps, ALL of them progress
-steps (no help from the environment, user code, Send callers or waiters), every one enabled in
-turn, at the end of which Run has returned. With `C04_no_deadlock` (such a step exists as long
-as Run has not returned), `C04_bounded` (each one consumes rank) and
+callback is in progress on the loop or the listen goroutine - Run may be at ANY stage of its
+start-up, inside its user code or not -, there is a schedule of at most `rank s` steps, every one
+enabled in turn, at the end of which Run has returned; the steps are progress steps (no help from
+the environment, Send callers or waiters) and, while Run is starting up, the returns of the user code
+Run calls there (the writer of the mode sequences, Init, the first View). With `C04_no_deadlock`
+(such a step exists as long as Run has not returned), `C04_bounded` (each one consumes rank) and
 `C04_rank_never_increases` (nobody but a new Kill() gives rank back) this is: Run returns as
 soon as any in-progress callback returns. -/
-theorem C04_run_returns (c : Config) (s : St) (hr : Reachable c s) (ht : Terminating s)
-    (hc : NoCallback s) :
+theorem C04_run_returns_partial (c : Config) (s : St) (hr : Reachable c s) (ht : Terminating s)
+    (hq : LoopQuiet s) :
+    ∃ ls s', (∀ l ∈ ls, scheduleLabel l = true) ∧ ls.length ≤ rank s ∧ runLabels s ls = some s' ∧
+      s'.runPc = .returned :=
+  run_returns hr ht hq
+
+/-- ... and once the start-up is over (Run is in its loop or its tail) progress steps ALONE do it:
+the theorem of the model that began at the loop is the special case "not starting up" -/
+theorem C04_run_returns_after_startup (c : Config) (s : St) (hr : Reachable c s) (ht : Terminating s)
+    (hc : NoCallback s) (hpast : ∀ p, s.runPc ≠ .starting p) :
     ∃ ls s', (∀ l ∈ ls, progressLabel l = true) ∧ ls.length ≤ rank s ∧ runLabels s ls = some s' ∧
       s'.runPc = .returned :=
-  run_returns (rank s) (Nat.le_refl _) hr ht hc
+  run_returns_past hr ht hc hpast
 
 /-- KILL() RETURNS TOO. The same for the other callers of shutdown: a Kill() (or a panic handler
 on a command goroutine) that has not finished its shutdown is never blocked when no callback
@@ -143,72 +248,115 @@ theorem C04_kill_not_blocked (c : Config) (s : St) (hr : Reachable c s) (hc : No
     ∃ l, progressLabel l = true ∧ (step s l).isSome = true :=
   killer_no_deadlock hr hc j ph hj hph
 
-/-- ... and at most `rank s` progress steps lead to a state in which EVERY shutdown call has
-completed: Run has returned (if termination had begun) and every Kill() has finished. -/
-theorem C04_everybody_done (c : Config) (s : St) (hr : Reachable c s) (hc : NoCallback s) :
-    ∃ ls s', (∀ l ∈ ls, progressLabel l = true) ∧ ls.length ≤ rank s ∧ runLabels s ls = some s' ∧
+/- FALSE in the extended model, for the reason `C04_run_returns` is:
+
+    theorem C04_everybody_done (c : Config) (s : St) (hr : Reachable c s) (hc : NoCallback s) :
+        ∃ ls s', (∀ l ∈ ls, progressLabel l = true) ∧ ls.length ≤ rank s ∧ runLabels s ls = some s' ∧
+          (Terminating s → s'.runPc = .returned) ∧
+          (∀ (j : Nat) (ph : ShPhase), s'.killers[j]? = some ph → ph = .done)
+
+  counterexample: `init0 c`, `killCall` (see `C04_run_returns`). -/
+
+/-- ... and at most `rank s` steps (progress steps, returns of the start-up's user code) lead to a
+state in which EVERY shutdown call has completed: Run has returned (if termination had begun) and
+every Kill() has finished. -/
+theorem C04_everybody_done_partial (c : Config) (s : St) (hr : Reachable c s) (hq : LoopQuiet s) :
+    ∃ ls s', (∀ l ∈ ls, scheduleLabel l = true) ∧ ls.length ≤ rank s ∧ runLabels s ls = some s' ∧
       (Terminating s → s'.runPc = .returned) ∧ (∀ (j : Nat) (ph : ShPhase), s'.killers[j]? = some ph → ph = .done) :=
-  everybody_done hr hc
+  everybody_done hr hq
 
 /-! ### 3. the error -/
 
-/-- ERROR CLASS. When Run has returned, the loop had exited for some cause, and the error is
+/- FALSE in the extended model (Run can return without its loop ever having begun):
+
+    theorem C04_error_class (c : Config) (s : St) (hr : Reachable c s) (h : s.runPc = .returned) :
+        ∃ cause ctxAtCheck, s.el = .exited cause ∧ s.runErr = errOf cause ctxAtCheck
+
+  counterexample: `init0 c`, `suSigHandler`, `suNewRenderer`, `startTermFails` (initTerminal fails):
+  Run has returned, `el = .notStarted`, the error is the start-up error. -/
+
+/-- ERROR CLASS. When Run has returned, EITHER the loop had exited for some cause, and the error is
 the one Run computes from that cause and the state of the context at the moment of its check
 (`errOf`: quit -> nil, or killed if the context was cancelled by then; interrupt ->
 ErrInterrupted; cancelled context -> ErrProgramKilled; panic -> ErrProgramKilled; read error
--> the reader's error). -/
-theorem C04_error_class (c : Config) (s : St) (hr : Reachable c s) (h : s.runPc = .returned) :
-    ∃ cause ctxAtCheck, s.el = .exited cause ∧ s.runErr = errOf cause ctxAtCheck := by
-  obtain ⟨cz, b, h1, h2, _⟩ := inv_err hr (by rw [h]; decide)
-  exact ⟨cz, b, h1, h2⟩
+-> the reader's error), OR the loop never began and the error is ErrProgramKilled (Init / the first
+View panicked) or the error of the start-up failure (initTerminal, the cancel reader). -/
+theorem C04_error_class_partial (c : Config) (s : St) (hr : Reachable c s) (h : s.runPc = .returned) :
+    (∃ cause ctxAtCheck, s.el = .exited cause ∧ s.runErr = errOf cause ctxAtCheck) ∨
+    (s.el = .notStarted ∧ (s.runErr = .killed ∨ s.runErr = .startup)) := by
+  rcases inv_err hr (Or.inr h) with ⟨cz, b, h1, h2, _⟩ | h1
+  · exact Or.inl ⟨cz, b, h1, h2⟩
+  · exact Or.inr h1
 
-/-- Run's tail only runs after the loop has exited -/
-theorem C04_tail_after_loop (c : Config) (s : St) (hr : Reachable c s) (h : s.runPc ≠ .loop) :
-    ∃ cause, s.el = .exited cause := by
-  obtain ⟨cz, _, h1, _⟩ := inv_err hr h
-  exact ⟨cz, h1⟩
+/- FALSE in the extended model (before the loop there is the start-up; the tail can follow it directly):
+
+    theorem C04_tail_after_loop (c : Config) (s : St) (hr : Reachable c s) (h : s.runPc ≠ .loop) :
+        ∃ cause, s.el = .exited cause
+
+  counterexamples: `init0 c` itself (`runPc = .starting .sigHandler`); and, in the tail:
+  `init0 c`, `suSigHandler`, `suNewRenderer`, `startWriterReturns`, `suStartRenderer`, `initPanics`. -/
+
+/-- Run's tail only runs after the loop has exited - or after a failure / panic of the start-up, the
+loop never having begun; and while Run is starting up the loop has not begun -/
+theorem C04_tail_after_loop_partial (c : Config) (s : St) (hr : Reachable c s) :
+    (s.runPc = .tail ∨ s.runPc = .returned → (∃ cause, s.el = .exited cause) ∨ s.el = .notStarted) ∧
+    (∀ p, s.runPc = .starting p → s.el = .notStarted) ∧
+    (s.runPc = .loop → s.el ≠ .notStarted) := by
+  refine ⟨fun h => ?_, fun p hp => ((inv_start hr).starting p hp).1, fun h => ((inv_start hr).loop h).1⟩
+  rcases inv_err hr h with ⟨cz, _, h1, _⟩ | h1
+  · exact Or.inl ⟨cz, h1⟩
+  · exact Or.inr h1.1
 
 /-- an interrupt (interrupt message or SIGINT) gives ErrInterrupted -/
 theorem C04_error_interrupt (c : Config) (s : St) (hr : Reachable c s) (h : s.runPc ≠ .loop)
     (hel : s.el = .exited .interrupt) : s.runErr = .interrupted := by
-  obtain ⟨cz, b, h1, h2, _⟩ := inv_err hr h
-  rw [hel] at h1; cases h1; exact h2
+  obtain ⟨b, h2, _⟩ := err_of_exited hr h hel
+  exact h2
 
 /-- a cancelled context (Kill(), cancellation of the supplied context, a panic in a command)
 gives an error wrapping ErrProgramKilled -/
 theorem C04_error_ctx (c : Config) (s : St) (hr : Reachable c s) (h : s.runPc ≠ .loop)
     (hel : s.el = .exited .ctx) : s.runErr = .killed := by
-  obtain ⟨cz, b, h1, h2, _⟩ := inv_err hr h
-  rw [hel] at h1; cases h1; exact h2
+  obtain ⟨b, h2, _⟩ := err_of_exited hr h hel
+  exact h2
 
 /-- a recovered panic in Update / View gives an error wrapping ErrProgramKilled -/
 theorem C04_error_panic (c : Config) (s : St) (hr : Reachable c s) (h : s.runPc ≠ .loop)
     (hel : s.el = .exited .panic) : s.runErr = .killed := by
-  obtain ⟨cz, b, h1, h2, _⟩ := inv_err hr h
-  rw [hel] at h1; cases h1; exact h2
+  obtain ⟨b, h2, _⟩ := err_of_exited hr h hel
+  exact h2
 
 /-- an input failure gives the reader's error -/
 theorem C04_error_reader (c : Config) (s : St) (hr : Reachable c s) (h : s.runPc ≠ .loop)
     (hel : s.el = .exited .readErr) : s.runErr = .reader := by
-  obtain ⟨cz, b, h1, h2, _⟩ := inv_err hr h
-  rw [hel] at h1; cases h1; exact h2
+  obtain ⟨b, h2, _⟩ := err_of_exited hr h hel
+  exact h2
 
 /-- a quit (quit message, Quit(), SIGTERM) gives nil - or ErrProgramKilled when the context had
 been cancelled as well by the time Run looked (`killed := ctx.Err() != nil || err != nil`) -/
 theorem C04_error_quit (c : Config) (s : St) (hr : Reachable c s) (h : s.runPc ≠ .loop)
     (hel : s.el = .exited .quit) : s.runErr = .nil ∨ s.runErr = .killed := by
-  obtain ⟨cz, b, h1, h2, _⟩ := inv_err hr h
-  rw [hel] at h1; cases h1
+  obtain ⟨b, h2, _⟩ := err_of_exited hr h hel
   cases b
   · exact Or.inl h2
   · exact Or.inr h2
 
-/-- NIL ONLY FOR QUIT. Once Run is past its loop, a nil error means the loop ended by a quit. -/
-theorem C04_nil_only_for_quit (c : Config) (s : St) (hr : Reachable c s) (h : s.runPc ≠ .loop)
-    (hnil : s.runErr = .nil) : s.el = .exited .quit := by
-  obtain ⟨cz, b, h1, h2, _⟩ := inv_err hr h
-  rw [hnil] at h2
-  cases cz <;> cases b <;> first | exact h1 | cases h2
+/- FALSE in the extended model (`runPc ≠ .loop` no longer means "past the loop"):
+
+    theorem C04_nil_only_for_quit (c : Config) (s : St) (hr : Reachable c s) (h : s.runPc ≠ .loop)
+        (hnil : s.runErr = .nil) : s.el = .exited .quit
+
+  counterexample: `init0 c` (starting up, no error computed yet, the loop has not begun). -/
+
+/-- NIL ONLY FOR QUIT. Once Run is past its loop / its start-up (in its tail, or returned), a nil
+error means the loop ended by a quit: no failure and no panic of the start-up gives nil. -/
+theorem C04_nil_only_for_quit_partial (c : Config) (s : St) (hr : Reachable c s)
+    (h : s.runPc = .tail ∨ s.runPc = .returned) (hnil : s.runErr = .nil) : s.el = .exited .quit := by
+  rcases inv_err hr h with ⟨cz, b, h1, h2, _⟩ | ⟨_, h2⟩
+  · rw [hnil] at h2
+    cases cz <;> cases b <;> first | exact h1 | cases h2
+  · rw [hnil] at h2
+    rcases h2 with h2 | h2 <;> cases h2
 
 /-- if the context was already cancelled (Kill(), parent cancellation) when Run left its loop,
 the error is never nil, whatever ended the loop -/
@@ -223,10 +371,20 @@ theorem C04_cancelled_never_nil (s s' : St) (hs : step s .runTail = some s')
     · cases hs
   · cases hs
 
-/-- the error is fixed when Run leaves its loop: no later step changes it -/
-theorem C04_error_fixed (s s' : St) (l : Label) (hs : step s l = some s') (h : s.runPc ≠ .loop) :
-    s'.runErr = s.runErr ∧ s'.runPc ≠ .loop := by
-  step_cases hs l <;> simp_all
+/- FALSE in the extended model (`runPc ≠ .loop` no longer means "past the loop"):
+
+    theorem C04_error_fixed (s s' : St) (l : Label) (hs : step s l = some s') (h : s.runPc ≠ .loop) :
+        s'.runErr = s.runErr ∧ s'.runPc ≠ .loop
+
+  counterexamples: at stage `initCall`, `initPanics` sets the error; at stage `spawnHandlers`,
+  `suSpawnHandlers` enters the loop. -/
+
+/-- the error is fixed when Run leaves its loop / its start-up for its tail: no later step changes
+it, and Run never goes back -/
+theorem C04_error_fixed_partial (s s' : St) (l : Label) (hs : step s l = some s')
+    (h : s.runPc = .tail ∨ s.runPc = .returned) :
+    s'.runErr = s.runErr ∧ (s'.runPc = .tail ∨ s'.runPc = .returned) :=
+  ⟨err_fixed hs h, pastLoop_stable hs h⟩
 
 /-! ### 4. end of input -/
 
@@ -241,7 +399,150 @@ theorem C04_eof_is_not_termination (s s' : St) (hs : step s .readEOF = some s') 
   · cases hs; exact ⟨rfl, rfl, rfl, rfl, Iff.rfl⟩
   · cases hs
 
-/-! ### 5. non-vacuity -/
+/-! ### 5. the start-up: strikes and failures before the loop begins -/
+
+/-- THE START-UP REACHES THE LOOP. The fault-free schedule - every stage in turn, the writer of the
+mode sequences, Init and the first View returning - leads from Run's entry (`init0 c`) to the state
+in which the event loop begins with every handler running and the renderer listening (`init c`, the
+start of the model before its extension): every reachability fact about `init c` is a special case. -/
+theorem C04_startup_reaches_loop (c : Config) :
+    startupSchedule =
+      [.suSigHandler, .suNewRenderer, .startWriterReturns, .suStartRenderer, .initReturns, .suSpawnInit,
+       .firstViewReturns, .suOpenReader, .suSpawnHandlers] ∧
+    runLabels (init0 c) startupSchedule = some (init c) ∧ Reachable c (init c) :=
+  ⟨rfl, startup_reaches_loop c, Reachable.init⟩
+
+/-- KILL() DURING THE START-UP. For EVERY configuration and EVERY prefix of the fault-free start-up
+(`k = 0..8`: the nine stages; `k ≥ 9`: the loop has just begun): that prefix can be run, a Kill()
+(or a panic handler on another goroutine) is enabled there, and after it a schedule of at most
+`rank` steps - progress steps and the returns of the start-up's user code (the pending one
+included), each enabled in turn - brings Run to its return, with ErrProgramKilled. -/
+theorem C04_kill_during_startup (c : Config) (k : Nat) :
+    ∃ s, runLabels (init0 c) (startupSchedule.take k) = some s ∧
+      ∃ s1, step s .killCall = some s1 ∧
+        ∃ ls s', (∀ l ∈ ls, scheduleLabel l = true) ∧ ls.length ≤ rank s1 ∧
+          runLabels s1 ls = some s' ∧ s'.runPc = .returned ∧ s'.runErr = .killed :=
+  strike_during_startup c k .killCall rfl
+
+/-- CANCELLATION DURING THE START-UP. The same for the cancellation of the supplied context. -/
+theorem C04_cancel_during_startup (c : Config) (k : Nat) :
+    ∃ s, runLabels (init0 c) (startupSchedule.take k) = some s ∧
+      ∃ s1, step s .parentCancel = some s1 ∧
+        ∃ ls s', (∀ l ∈ ls, scheduleLabel l = true) ∧ ls.length ≤ rank s1 ∧
+          runLabels s1 ls = some s' ∧ s'.runPc = .returned ∧ s'.runErr = .killed :=
+  strike_during_startup c k .parentCancel rfl
+
+/-- the four failures of the start-up and the error class of each -/
+theorem failureClass_def (l : Label) : failureClass l =
+    match l with
+    | .startTermFails | .startReaderFails => some .startup
+    | .initPanics | .firstViewPanics => some .killed
+    | _ => none := by
+  cases l <;> rfl
+
+/-- START-UP FAILURES. `initTerminal` fails (`startTermFails`), the cancel reader cannot be opened
+(`startReaderFails`), Init or the first View panics: in every reachable state in which such a step
+happens, afterwards termination has begun and Run's error has its class - the start-up error, the
+start-up error, ErrProgramKilled, ErrProgramKilled; after `startTermFails` Run HAS returned (without
+a shutdown; the context is cancelled and `finished` closed by the deferred calls); after the others,
+whatever happens next (`ls`), from every state with no callback in progress at most `rank` progress
+steps bring Run to its return with that error. -/
+theorem C04_startup_failure_returns (c : Config) (s s' : St) (hr : Reachable c s) (l : Label)
+    (e : ErrClass) (hl : failureClass l = some e) (hs : step s l = some s') :
+    s'.runErr = e ∧ Terminating s' ∧
+    (l = .startTermFails → s'.runPc = .returned ∧ s'.ctxDone = true ∧ s'.finishedClosed = true) ∧
+    ∀ ls s'', runLabels s' ls = some s'' → NoCallback s'' →
+      ∃ ps s3, (∀ l ∈ ps, progressLabel l = true) ∧ ps.length ≤ rank s'' ∧
+        runLabels s'' ps = some s3 ∧ s3.runPc = .returned ∧ s3.runErr = e := by
+  obtain ⟨_, he, ht, h4⟩ := failure_step hl hs
+  exact ⟨he, ht, h4, fun ls s'' hrun hc => failure_returns hr hl hs ls s'' hrun hc⟩
+
+/-- ... and each failure can happen exactly at its stage (the reader's only with an input) -/
+theorem C04_startup_failures_enabled (s : St) :
+    ((step s .startTermFails).isSome = true ↔ s.runPc = .starting .modeWrites) ∧
+    ((step s .initPanics).isSome = true ↔ s.runPc = .starting .initCall) ∧
+    ((step s .firstViewPanics).isSome = true ↔ s.runPc = .starting .firstView) ∧
+    ((step s .startReaderFails).isSome = true ↔ (s.runPc = .starting .openReader ∧ s.withInput = true)) := by
+  simp only [step]
+  refine ⟨?_, ?_, ?_, ?_⟩ <;> (split <;> simp_all)
+
+/- FALSE as stated in the task ("if `ctxDone` became true before the loop began, the error class when
+Run returns is `.killed`"):
+
+    theorem C04_startup_kill_error (c : Config) (s : St) (hr : Reachable c s) (p : StartPc)
+        (hp : s.runPc = .starting p) (hctx : s.ctxDone = true) (ls : List Label) (s' : St)
+        (hrun : runLabels s ls = some s') (hret : s'.runPc = .returned) : s'.runErr = .killed
+
+  counterexamples (examples at the end of this file): (1) the context is cancelled, then
+  `initTerminal` fails, or the cancel reader cannot be opened: the error is the start-up error;
+  (2) the context is cancelled during the start-up while a goroutine is blocked sending an interrupt
+  message (or the read loop holds a read error): when the loop begins its `select` may take that
+  message instead of `ctx.Done()`, and the error is ErrInterrupted (the reader's error).  What holds
+  for EVERY schedule is the theorem below; for the schedules of `C04_kill_during_startup` /
+  `C04_cancel_during_startup` (nothing but the runtime's own steps) the error IS ErrProgramKilled. -/
+
+/-- CANCELLED BEFORE THE LOOP BEGAN. If the context is cancelled while Run is still starting up
+(Kill(), cancellation of the supplied context), then in every later state of every schedule in
+which Run has returned its error is ErrProgramKilled - unless the start-up failed afterwards (the
+start-up error), or the loop took an interrupt message / a read error in spite of the cancelled
+context (ErrInterrupted / the reader's error).  In particular it is never nil: a quit that is
+received after the cancellation gives ErrProgramKilled. -/
+theorem C04_startup_kill_error_partial (c : Config) (s : St) (hr : Reachable c s) (p : StartPc)
+    (_hp : s.runPc = .starting p) (hctx : s.ctxDone = true) (ls : List Label) (s' : St)
+    (hrun : runLabels s ls = some s') (hret : s'.runPc = .returned) :
+    (s'.runErr = .killed ∨ (s'.runErr = .startup ∧ s'.el = .notStarted) ∨
+     (s'.runErr = .interrupted ∧ s'.el = .exited .interrupt) ∨
+     (s'.runErr = .reader ∧ s'.el = .exited .readErr)) ∧ s'.runErr ≠ .nil := by
+  have h0 : StruckEarly s := ⟨hctx, fun h => by rcases h with h | h <;> rw [h] at _hp <;> cases _hp⟩
+  have h := (struckEarly_runLabels ls hr hrun h0).2 (Or.inr hret)
+  refine ⟨h, ?_⟩
+  rcases h with h | ⟨h, _⟩ | ⟨h, _⟩ | ⟨h, _⟩ <;> rw [h] <;> decide
+
+/-- THE TERMINAL MODES ARE RESTORED AFTER A STRIKE DURING THE START-UP. `modesDirty` says that mode
+sequences (alt screen, mouse, bracketed paste, focus) were written after the last
+`restoreTerminalState`.  A Kill() that strikes early restores BEFORE Run writes them (its restore
+is then too early to undo them); yet for every interleaving with any number of killers: (1) when
+Run returns through `runReturn` nothing is outstanding - Run's own restore is the last writer of
+Run's goroutine -; (2) nothing is outstanding in ANY reachable state in which Run has returned (after
+a failed `initTerminal` nothing had been written) and (3) in any state that follows. -/
+theorem C04_restored_after_startup_strike (c : Config) (s : St) (hr : Reachable c s) :
+    (∀ s', step s .runReturn = some s' → s'.modesDirty = false) ∧
+    (s.runPc = .returned → s.modesDirty = false) ∧
+    (s.runPc = .returned → ∀ ls s', runLabels s ls = some s' → s'.runPc = .returned ∧ s'.modesDirty = false) := by
+  refine ⟨fun s' hs => ?_, (inv_modes hr).returned, fun hret ls s' hrun => ?_⟩
+  · refine (inv_modes (Reachable.step _ hr hs)).returned ?_
+    simp only [step] at hs
+    split at hs
+    · cases hs; rfl
+    · cases hs
+  · have hret' := returned_runLabels ls hrun hret
+    exact ⟨hret', (inv_modes (reachable_runLabels ls hr hrun)).returned hret'⟩
+
+/-- NO HAND-OVER WITHOUT A LISTENER. `shRenderer` is `halt()` (inside `renderer.stop()` / `kill()`).
+Whoever has reached the renderer phase of its shutdown - Run itself or a Kill() - NEVER waits there
+unless the listen goroutine is inside the user's writer (`listen = .flushing`; and then the renderer
+exists): the step is disabled exactly in that case.  In particular it is enabled in every stage of
+the start-up before `renderer.start()`, where the listen goroutine does not exist yet.
+
+This is the defect that was repaired.  With the old handshake - `r.once.Do(func() { r.done <-
+struct{}{} })` on the unbuffered channel `done`, no `listening` flag - the step was NOT enabled
+there: a Kill() that arrived while Run was still starting up blocked in the send, because nobody was
+receiving; and when Run's later `start()` created the listen goroutine, that goroutine took the
+stale `done` and returned at once, so the renderer never painted and the following shutdown / the
+blocked Kill crashed the process.  `halt()` now looks at `listening` under `listenMtx` and does
+nothing when the renderer is not running. -/
+theorem C04_no_handover_without_listener (c : Config) (s : St) (hr : Reachable c s) (who : Option Nat)
+    (hph : phaseOf s who = some .renderer) :
+    (step s (.shRenderer who) = none ↔ (s.rendererMade = true ∧ s.listen = .flushing)) ∧
+    (s.listen ≠ .flushing → (step s (.shRenderer who)).isSome = true) ∧
+    (∀ p, s.runPc = .starting p →
+      (p = .sigHandler ∨ p = .newRenderer ∨ p = .modeWrites ∨ p = .startRenderer) →
+      s.listen = .notStarted ∧ (step s (.shRenderer who)).isSome = true) := by
+  refine ⟨shRenderer_disabled_iff s who hph, shRenderer_enabled s who hph, fun p hp hb => ?_⟩
+  have hb' : p.beforeStart = true := by rcases hb with h | h | h | h <;> rw [h] <;> rfl
+  exact ⟨(inv_start hr).early p hp hb', shRenderer_enabled_early hr p hp hb' who hph⟩
+
+/-! ### 6. non-vacuity -/
 
 /-- a program with a signal handler, a resize listener, a cancelable input, one user Send and
 one Quit() caller, and two Wait callers -/
@@ -288,7 +589,7 @@ example : ∃ s, Reachable cfg s ∧ Terminating s ∧ NoCallback s ∧ s.runPc 
   simp only [Option.map_some, Option.some.injEq, Prod.mk.injEq] at h
   obtain ⟨h1, h2, h3, h4, h5⟩ := h
   refine ⟨s, reachable_runLabels _ Reachable.init hs, Or.inl h1, ?_, h4, h2, h5⟩
-  simp [NoCallback, h2, h3]
+  simp [NoCallback, h2, h3, h4]
 
 /-- the interrupt wins the race instead: ErrInterrupted -/
 example : (runLabels (init cfg)
@@ -309,6 +610,269 @@ example : (runLabels (init cfg) [.readEOF]).map (fun s => (s.el, s.ctxDone, s.ru
     = some (.select, false, .loop, [], .exited) ∧
     (runLabels (init cfg) [.readEOF, .elCtxExit]).isSome = false ∧
     (runLabels (init cfg) [.readEOF, .runTail]).isSome = false := by
+  decide
+
+/-! ### 7. non-vacuity: the start-up -/
+
+/-- a program with a cancelable input, an Init command, a signal handler and a resize listener -/
+def cfgS : Config :=
+  { cancelable := true, withSignalHandler := true, ignoreSignals := false, withResize := true,
+    withInitCmd := true, withInput := true, senders := [.user, .quit], waiters := 2 }
+
+/-- what the start-up examples look at: Run, its error, the number of restores, outstanding modes -/
+def obsS (s : St) : RunPc × ErrClass × Nat × Bool := (s.runPc, s.runErr, s.restores, s.modesDirty)
+
+/-- the fault-free start-up of this program: the loop begins, everything is running -/
+example :
+    (runLabels (init0 cfgS) startupSchedule).map (fun s => (s.runPc, s.el, s.sig, s.resize, s.initG))
+      = some (.loop, .select, .waiting, .waiting, .waiting) ∧
+    (runLabels (init0 cfgS) startupSchedule).map (fun s => (s.reader, s.listen, s.dispAlive, s.modesDirty))
+      = some (.reading, .idle, true, true) := by decide
+
+/-! Kill() at each of the nine stages.  In these runs Kill's own shutdown runs to its END at once -
+through the renderer phase while the renderer has not been created / not been started (the
+scenario of the repaired defect) and through a restore that comes before Run has written its mode
+sequences -, then Run finishes its start-up (the handlers it spawns leave at once: the context is
+cancelled), enters its loop, sees the cancelled context, shuts down, restores and returns
+ErrProgramKilled: two restores, no mode outstanding. -/
+
+/-- Kill() when Run is at stage `sigHandler` (after 0 steps of the fault-free start-up) -/
+example : (runLabels (init0 cfgS) (startupSchedule.take 0)).map (·.runPc) = some (.starting .sigHandler) ∧
+    (runLabels (init0 cfgS) (startupSchedule.take 0 ++ .killCall ::
+     [.shCancel (some 0), .shHandlers (some 0), .shReader (some 0), .shRenderer (some 0),
+      .shRestore (some 0), .suSigHandler, .sigExit, .suNewRenderer, .startWriterReturns,
+      .suStartRenderer, .initReturns, .suSpawnInit, .initAbort, .firstViewReturns, .suOpenReader,
+      .suSpawnHandlers, .resizeExit, .dispExit, .elCtxExit, .runTail, .shCancel none,
+      .shHandlers none, .shReader none, .readerCanceled, .shRenderer none, .shRestore none,
+      .runReturn])).map obsS
+    = some (.returned, .killed, 2, false) := by decide
+
+/-- Kill() when Run is at stage `newRenderer` (after 1 steps of the fault-free start-up) -/
+example : (runLabels (init0 cfgS) (startupSchedule.take 1)).map (·.runPc) = some (.starting .newRenderer) ∧
+    (runLabels (init0 cfgS) (startupSchedule.take 1 ++ .killCall ::
+     [.shCancel (some 0), .sigExit, .shHandlers (some 0), .shReader (some 0), .shRenderer (some 0),
+      .shRestore (some 0), .suNewRenderer, .startWriterReturns, .suStartRenderer, .initReturns,
+      .suSpawnInit, .initAbort, .firstViewReturns, .suOpenReader, .suSpawnHandlers, .resizeExit,
+      .dispExit, .elCtxExit, .runTail, .shCancel none, .shHandlers none, .shReader none,
+      .readerCanceled, .shRenderer none, .shRestore none, .runReturn])).map obsS
+    = some (.returned, .killed, 2, false) := by decide
+
+/-- Kill() when Run is at stage `modeWrites` (after 2 steps of the fault-free start-up) -/
+example : (runLabels (init0 cfgS) (startupSchedule.take 2)).map (·.runPc) = some (.starting .modeWrites) ∧
+    (runLabels (init0 cfgS) (startupSchedule.take 2 ++ .killCall ::
+     [.shCancel (some 0), .sigExit, .shHandlers (some 0), .shReader (some 0), .shRenderer (some 0),
+      .shRestore (some 0), .startWriterReturns, .suStartRenderer, .initReturns, .suSpawnInit,
+      .initAbort, .firstViewReturns, .suOpenReader, .suSpawnHandlers, .resizeExit, .dispExit,
+      .elCtxExit, .runTail, .shCancel none, .shHandlers none, .shReader none, .readerCanceled,
+      .shRenderer none, .shRestore none, .runReturn])).map obsS
+    = some (.returned, .killed, 2, false) := by decide
+
+/-- Kill() when Run is at stage `startRenderer` (after 3 steps of the fault-free start-up) -/
+example : (runLabels (init0 cfgS) (startupSchedule.take 3)).map (·.runPc) = some (.starting .startRenderer) ∧
+    (runLabels (init0 cfgS) (startupSchedule.take 3 ++ .killCall ::
+     [.shCancel (some 0), .sigExit, .shHandlers (some 0), .shReader (some 0), .shRenderer (some 0),
+      .shRestore (some 0), .suStartRenderer, .initReturns, .suSpawnInit, .initAbort,
+      .firstViewReturns, .suOpenReader, .suSpawnHandlers, .resizeExit, .dispExit, .elCtxExit,
+      .runTail, .shCancel none, .shHandlers none, .shReader none, .readerCanceled,
+      .shRenderer none, .shRestore none, .runReturn])).map obsS
+    = some (.returned, .killed, 2, false) := by decide
+
+/-- Kill() when Run is at stage `initCall` (after 4 steps of the fault-free start-up) -/
+example : (runLabels (init0 cfgS) (startupSchedule.take 4)).map (·.runPc) = some (.starting .initCall) ∧
+    (runLabels (init0 cfgS) (startupSchedule.take 4 ++ .killCall ::
+     [.shCancel (some 0), .sigExit, .shHandlers (some 0), .shReader (some 0), .shRenderer (some 0),
+      .shRestore (some 0), .initReturns, .suSpawnInit, .initAbort, .firstViewReturns,
+      .suOpenReader, .suSpawnHandlers, .resizeExit, .dispExit, .elCtxExit, .runTail,
+      .shCancel none, .shHandlers none, .shReader none, .readerCanceled, .shRenderer none,
+      .shRestore none, .runReturn])).map obsS
+    = some (.returned, .killed, 2, false) := by decide
+
+/-- Kill() when Run is at stage `spawnInit` (after 5 steps of the fault-free start-up) -/
+example : (runLabels (init0 cfgS) (startupSchedule.take 5)).map (·.runPc) = some (.starting .spawnInit) ∧
+    (runLabels (init0 cfgS) (startupSchedule.take 5 ++ .killCall ::
+     [.shCancel (some 0), .sigExit, .shHandlers (some 0), .shReader (some 0), .shRenderer (some 0),
+      .shRestore (some 0), .suSpawnInit, .initAbort, .firstViewReturns, .suOpenReader,
+      .suSpawnHandlers, .resizeExit, .dispExit, .elCtxExit, .runTail, .shCancel none,
+      .shHandlers none, .shReader none, .readerCanceled, .shRenderer none, .shRestore none,
+      .runReturn])).map obsS
+    = some (.returned, .killed, 2, false) := by decide
+
+/-- Kill() when Run is at stage `firstView` (after 6 steps of the fault-free start-up) -/
+example : (runLabels (init0 cfgS) (startupSchedule.take 6)).map (·.runPc) = some (.starting .firstView) ∧
+    (runLabels (init0 cfgS) (startupSchedule.take 6 ++ .killCall ::
+     [.shCancel (some 0), .sigExit, .initAbort, .shHandlers (some 0), .shReader (some 0),
+      .shRenderer (some 0), .shRestore (some 0), .firstViewReturns, .suOpenReader,
+      .suSpawnHandlers, .resizeExit, .dispExit, .elCtxExit, .runTail, .shCancel none,
+      .shHandlers none, .shReader none, .readerCanceled, .shRenderer none, .shRestore none,
+      .runReturn])).map obsS
+    = some (.returned, .killed, 2, false) := by decide
+
+/-- Kill() when Run is at stage `openReader` (after 7 steps of the fault-free start-up) -/
+example : (runLabels (init0 cfgS) (startupSchedule.take 7)).map (·.runPc) = some (.starting .openReader) ∧
+    (runLabels (init0 cfgS) (startupSchedule.take 7 ++ .killCall ::
+     [.shCancel (some 0), .sigExit, .initAbort, .shHandlers (some 0), .shReader (some 0),
+      .shRenderer (some 0), .shRestore (some 0), .suOpenReader, .suSpawnHandlers, .resizeExit,
+      .dispExit, .elCtxExit, .runTail, .shCancel none, .shHandlers none, .shReader none,
+      .readerCanceled, .shRenderer none, .shRestore none, .runReturn])).map obsS
+    = some (.returned, .killed, 2, false) := by decide
+
+/-- Kill() when Run is at stage `spawnHandlers` (after 8 steps of the fault-free start-up) -/
+example : (runLabels (init0 cfgS) (startupSchedule.take 8)).map (·.runPc) = some (.starting .spawnHandlers) ∧
+    (runLabels (init0 cfgS) (startupSchedule.take 8 ++ .killCall ::
+     [.shCancel (some 0), .sigExit, .initAbort, .shHandlers (some 0), .shReader (some 0),
+      .shRenderer (some 0), .shRestore (some 0), .suSpawnHandlers, .resizeExit, .dispExit,
+      .elCtxExit, .runTail, .shCancel none, .shHandlers none, .shReader none, .readerCanceled,
+      .shRenderer none, .shRestore none, .runReturn])).map obsS
+    = some (.returned, .killed, 2, false) := by decide
+
+/-! The supplied context is cancelled at each of the nine stages: Run finishes its start-up, the
+loop sees the cancelled context at once; one restore (Run's own). -/
+
+/-- cancellation when Run is at stage `sigHandler` (after 0 steps of the fault-free start-up) -/
+example : (runLabels (init0 cfgS) (startupSchedule.take 0)).map (·.runPc) = some (.starting .sigHandler) ∧
+    (runLabels (init0 cfgS) (startupSchedule.take 0 ++ .parentCancel ::
+     [.suSigHandler, .sigExit, .suNewRenderer, .startWriterReturns, .suStartRenderer, .initReturns,
+      .suSpawnInit, .initAbort, .firstViewReturns, .suOpenReader, .suSpawnHandlers, .resizeExit,
+      .dispExit, .elCtxExit, .runTail, .shCancel none, .shHandlers none, .shReader none,
+      .readerCanceled, .shRenderer none, .shRestore none, .runReturn])).map obsS
+    = some (.returned, .killed, 1, false) := by decide
+
+/-- cancellation when Run is at stage `newRenderer` (after 1 steps of the fault-free start-up) -/
+example : (runLabels (init0 cfgS) (startupSchedule.take 1)).map (·.runPc) = some (.starting .newRenderer) ∧
+    (runLabels (init0 cfgS) (startupSchedule.take 1 ++ .parentCancel ::
+     [.sigExit, .suNewRenderer, .startWriterReturns, .suStartRenderer, .initReturns, .suSpawnInit,
+      .initAbort, .firstViewReturns, .suOpenReader, .suSpawnHandlers, .resizeExit, .dispExit,
+      .elCtxExit, .runTail, .shCancel none, .shHandlers none, .shReader none, .readerCanceled,
+      .shRenderer none, .shRestore none, .runReturn])).map obsS
+    = some (.returned, .killed, 1, false) := by decide
+
+/-- cancellation when Run is at stage `modeWrites` (after 2 steps of the fault-free start-up) -/
+example : (runLabels (init0 cfgS) (startupSchedule.take 2)).map (·.runPc) = some (.starting .modeWrites) ∧
+    (runLabels (init0 cfgS) (startupSchedule.take 2 ++ .parentCancel ::
+     [.sigExit, .startWriterReturns, .suStartRenderer, .initReturns, .suSpawnInit, .initAbort,
+      .firstViewReturns, .suOpenReader, .suSpawnHandlers, .resizeExit, .dispExit, .elCtxExit,
+      .runTail, .shCancel none, .shHandlers none, .shReader none, .readerCanceled,
+      .shRenderer none, .shRestore none, .runReturn])).map obsS
+    = some (.returned, .killed, 1, false) := by decide
+
+/-- cancellation when Run is at stage `startRenderer` (after 3 steps of the fault-free start-up) -/
+example : (runLabels (init0 cfgS) (startupSchedule.take 3)).map (·.runPc) = some (.starting .startRenderer) ∧
+    (runLabels (init0 cfgS) (startupSchedule.take 3 ++ .parentCancel ::
+     [.sigExit, .suStartRenderer, .initReturns, .suSpawnInit, .initAbort, .firstViewReturns,
+      .suOpenReader, .suSpawnHandlers, .resizeExit, .dispExit, .elCtxExit, .runTail,
+      .shCancel none, .shHandlers none, .shReader none, .readerCanceled, .shRenderer none,
+      .shRestore none, .runReturn])).map obsS
+    = some (.returned, .killed, 1, false) := by decide
+
+/-- cancellation when Run is at stage `initCall` (after 4 steps of the fault-free start-up) -/
+example : (runLabels (init0 cfgS) (startupSchedule.take 4)).map (·.runPc) = some (.starting .initCall) ∧
+    (runLabels (init0 cfgS) (startupSchedule.take 4 ++ .parentCancel ::
+     [.sigExit, .initReturns, .suSpawnInit, .initAbort, .firstViewReturns, .suOpenReader,
+      .suSpawnHandlers, .resizeExit, .dispExit, .elCtxExit, .runTail, .shCancel none,
+      .shHandlers none, .shReader none, .readerCanceled, .shRenderer none, .shRestore none,
+      .runReturn])).map obsS
+    = some (.returned, .killed, 1, false) := by decide
+
+/-- cancellation when Run is at stage `spawnInit` (after 5 steps of the fault-free start-up) -/
+example : (runLabels (init0 cfgS) (startupSchedule.take 5)).map (·.runPc) = some (.starting .spawnInit) ∧
+    (runLabels (init0 cfgS) (startupSchedule.take 5 ++ .parentCancel ::
+     [.sigExit, .suSpawnInit, .initAbort, .firstViewReturns, .suOpenReader, .suSpawnHandlers,
+      .resizeExit, .dispExit, .elCtxExit, .runTail, .shCancel none, .shHandlers none,
+      .shReader none, .readerCanceled, .shRenderer none, .shRestore none, .runReturn])).map obsS
+    = some (.returned, .killed, 1, false) := by decide
+
+/-- cancellation when Run is at stage `firstView` (after 6 steps of the fault-free start-up) -/
+example : (runLabels (init0 cfgS) (startupSchedule.take 6)).map (·.runPc) = some (.starting .firstView) ∧
+    (runLabels (init0 cfgS) (startupSchedule.take 6 ++ .parentCancel ::
+     [.sigExit, .initAbort, .firstViewReturns, .suOpenReader, .suSpawnHandlers, .resizeExit,
+      .dispExit, .elCtxExit, .runTail, .shCancel none, .shHandlers none, .shReader none,
+      .readerCanceled, .shRenderer none, .shRestore none, .runReturn])).map obsS
+    = some (.returned, .killed, 1, false) := by decide
+
+/-- cancellation when Run is at stage `openReader` (after 7 steps of the fault-free start-up) -/
+example : (runLabels (init0 cfgS) (startupSchedule.take 7)).map (·.runPc) = some (.starting .openReader) ∧
+    (runLabels (init0 cfgS) (startupSchedule.take 7 ++ .parentCancel ::
+     [.sigExit, .initAbort, .suOpenReader, .suSpawnHandlers, .resizeExit, .dispExit, .elCtxExit,
+      .runTail, .shCancel none, .shHandlers none, .shReader none, .readerCanceled,
+      .shRenderer none, .shRestore none, .runReturn])).map obsS
+    = some (.returned, .killed, 1, false) := by decide
+
+/-- cancellation when Run is at stage `spawnHandlers` (after 8 steps of the fault-free start-up) -/
+example : (runLabels (init0 cfgS) (startupSchedule.take 8)).map (·.runPc) = some (.starting .spawnHandlers) ∧
+    (runLabels (init0 cfgS) (startupSchedule.take 8 ++ .parentCancel ::
+     [.sigExit, .initAbort, .suSpawnHandlers, .resizeExit, .dispExit, .elCtxExit, .runTail,
+      .shCancel none, .shHandlers none, .shReader none, .readerCanceled, .shRenderer none,
+      .shRestore none, .runReturn])).map obsS
+    = some (.returned, .killed, 1, false) := by decide
+
+/-- the renderer phase of a Kill() that strikes before the renderer exists / before its listen
+goroutine exists is enabled (stages `sigHandler` and `startRenderer`); with the listen goroutine
+inside the user's writer it waits, and goes on when the writer returns -/
+example :
+    (runLabels (init0 cfgS) [.killCall, .shCancel (some 0), .shHandlers (some 0), .shReader (some 0)]).map
+      (fun s => (s.rendererMade, s.listen, (step s (.shRenderer (some 0))).isSome)) = some (false, .notStarted, true) ∧
+    (runLabels (init0 cfgS) (startupSchedule.take 3 ++
+        [.killCall, .shCancel (some 0), .sigExit, .shHandlers (some 0), .shReader (some 0)])).map
+      (fun s => (s.rendererMade, s.listen, (step s (.shRenderer (some 0))).isSome)) = some (true, .notStarted, true) ∧
+    (runLabels (init0 cfgS) (startupSchedule.take 4 ++
+        [.tick, .killCall, .shCancel (some 0), .sigExit, .shHandlers (some 0), .shReader (some 0)])).map
+      (fun s => (s.listen, (step s (.shRenderer (some 0))).isSome)) = some (.flushing, false) ∧
+    (runLabels (init0 cfgS) (startupSchedule.take 4 ++
+        [.tick, .killCall, .shCancel (some 0), .sigExit, .shHandlers (some 0), .shReader (some 0),
+         .writerReturns])).map
+      (fun s => (s.listen, (step s (.shRenderer (some 0))).isSome)) = some (.idle, true) := by decide
+
+/-- the four failures of the start-up.  `initTerminal` fails: Run returns at once, no shutdown, no
+restore, nothing outstanding, `finished` closed and the context cancelled by the deferred calls -/
+example : (runLabels (init0 cfgS) [.suSigHandler, .suNewRenderer, .startTermFails]).map
+    (fun s => (obsS s, s.finishedClosed && s.ctxDone)) = some ((.returned, .startup, 0, false), true) := by
+  decide
+
+/-- Init panics: shutdown(true), ErrProgramKilled -/
+example : (runLabels (init0 cfgS) (startupSchedule.take 4 ++
+    [.initPanics, .shCancel none, .sigExit, .shHandlers none, .shReader none, .shRenderer none,
+     .shRestore none, .runReturn])).map obsS = some (.returned, .killed, 1, false) := by decide
+
+/-- the first View panics: the same (the Init hand-over goroutine leaves at the cancellation) -/
+example : (runLabels (init0 cfgS) (startupSchedule.take 6 ++
+    [.firstViewPanics, .shCancel none, .sigExit, .initAbort, .shHandlers none, .shReader none,
+     .shRenderer none, .shRestore none, .runReturn])).map obsS = some (.returned, .killed, 1, false) := by
+  decide
+
+/-- the cancel reader cannot be opened: shutdown(true), the start-up error (the mode sequences HAD
+been written: Run's shutdown restores) -/
+example : (runLabels (init0 cfgS) (startupSchedule.take 7 ++
+    [.startReaderFails, .shCancel none, .sigExit, .initAbort, .shHandlers none, .shReader none,
+     .shRenderer none, .shRestore none, .runReturn])).map obsS = some (.returned, .startup, 1, false) := by
+  decide
+
+/-- the counterexamples to the statements that are false in the extended model:
+(1) `C04_error_class`, `C04_tail_after_loop`: Run has returned, the loop never began;
+(2) `C04_startup_kill_error`: the context is cancelled during the start-up, then `initTerminal`
+fails: the start-up error, not ErrProgramKilled;
+(3) `C04_startup_kill_error`: the context is cancelled during the start-up while an interrupt
+message is waiting in Send; the loop's `select` takes the message: ErrInterrupted;
+(4) `C04_run_returns`: after a Kill() at Run's entry, the runtime's own steps stop inside the user's
+writer: no progress step is enabled, Run has not returned -/
+example :
+    (runLabels (init0 cfgS) [.suSigHandler, .suNewRenderer, .startTermFails]).map
+      (fun s => (s.runPc, s.el, s.runErr)) = some (.returned, .notStarted, .startup) ∧
+    (runLabels (init0 cfgS) [.parentCancel, .suSigHandler, .suNewRenderer, .startTermFails]).map
+      (fun s => (s.runPc, s.ctxDone, s.runErr)) = some (.returned, true, .startup) ∧
+    (runLabels (init0 { cfgS with senders := [.interrupt] })
+      ([.sendCall 0, .parentCancel] ++ startupSchedule ++
+       [.elRecvSender 0, .runTail, .shCancel none, .dispExit, .sigExit, .resizeExit, .initAbort,
+        .shHandlers none, .shReader none, .shRenderer none, .shRestore none, .runReturn])).map
+      (fun s => (s.runPc, s.ctxDone, s.runErr)) = some (.returned, true, .interrupted) ∧
+    (runLabels (init0 cfgS) [.killCall, .suSigHandler, .suNewRenderer, .shCancel (some 0), .sigExit,
+        .shHandlers (some 0), .shReader (some 0), .shRenderer (some 0), .shRestore (some 0)]).map
+      (fun s => (s.runPc,
+        (([.suSigHandler, .suNewRenderer, .suStartRenderer, .suSpawnInit, .suOpenReader, .suSpawnHandlers,
+          .elCtxExit, .elCmdAbort, .runTail, .runReturn, .dispExit, .sigExit, .sigAbort, .resizeExit,
+          .initAbort, .readerMsgAbort, .readerErrAbort, .readerCanceled] : List Label) ++
+         [none, some 0].flatMap (fun w => [Label.shCancel w, .shHandlers w, .shReader w, .shWaitRead w,
+           .shWaitReadTimeout w, .shRenderer w, .shRestore w])).all (fun l => (step s l).isNone)))
+      = some (.starting .modeWrites, true) := by
   decide
 
 end Tea.Props.C04
